@@ -219,7 +219,8 @@ FixedList == <<
       FOptDef("s", TStr(-1, -1), JStr("ab")), FOptDef("b", TBool, JBool(TRUE)), FOptDef("i", TInt("int64", NoB, NoB), JInt(1)),
       FOptDef("n", TNum("float64", NoB, NoB), JNum(15)), FOptDef("e", TEnum(<<"a", "b">>), JStr("b")),
       FOptDef("z", TInt("int64", NoB, NoB), JInt(0)), FOptDef("f", TBool, JBool(FALSE)), FOptDef("a", TArr(TStr(-1, -1)), JArr(<<>>)),
-      F("plain", TStr(-1, -1))>>))>>, FALSE),
+      FOptDef("iv", TInt("int64", Ge(1), NoB), JInt(2)), FOptDef("sv", TStr(1, -1), JStr("ab")), FOptDef("nv", TNum("float64", Gt(0), NoB), JNum(15)),
+      F("plain", TStr(-1, -1))>>))>>, TRUE),
   \* unions of structs carrying TWO constant fields, one shared and same-valued, one discriminating, in both declaration
   \* orders and both alphabetical orders (the shared one is called `version` - after `kind` - or `aversion` - before it)
   Fixed("union-two-constants", <<
@@ -240,6 +241,19 @@ FixedList == <<
       FOpt("a", TRef("Child")), F("b", TRef("Child")), FNull("c", TRef("Child")), F("d", TRef("Child")),
       F("e", TArr(TNullable(TRef("Child")))), F("f", TArr(TRef("Child"))), FOptNull("g", TRef("Child"))>>)),
     Child>>, TRUE),
+  \* bounds whose argument is NEGATIVE, integers and floats; -1 and 0 sit on either side of each
+  Fixed("negative-bounds", <<
+    Def("Root", TStruct(<<
+      F("a", TInt("int64", Gt(-1), NoB)), F("b", TInt("int64", NoB, Le(-1))), F("c", TInt("int64", Ge(-1), Le(2))),
+      F("d", TNum("float64", Gt(-1), NoB)), F("e", TNum("float64", NoB, Le(-1))), FOpt("f", TInt("int64", NoB, Lt(0))),
+      FOpt("g", TArr(TNum("float64", Ge(-1), NoB))), FOpt("h", TMap(TInt("int64", Gt(-1), NoB)))>>))>>, TRUE),
+  \* required properties whose names ro / wo / dep make the OpenAPI rendering annotate them readOnly / writeOnly / deprecated:
+  \* annotations do not change required-ness (the other renderings are plain)
+  Fixed("openapi-annotations", <<
+    Def("Root", TStruct(<<
+      F("ro", TStr(1, -1)), F("wo", TInt("int64", Ge(0), NoB)), F("dep", TBool), FOpt("oro", TStr(-1, -1)), F("plain", TStr(-1, -1)),
+      F("sub", TRef("Sub"))>>)),
+    Def("Sub", TStruct(<<F("ro", TInt("int64", NoB, NoB)), FOpt("wo", TStr(-1, -1))>>))>>, TRUE),
   \* half-open numeric ranges in both orientations, integer and float, required and optional: 0 and 2 sit ON the bounds
   Fixed("half-open-ranges", <<
     Def("Root", TStruct(<<
@@ -267,7 +281,7 @@ FixedList == <<
     Def("Dict", TMap(TNullable(TInt("int64", NoB, NoB)))), Def("x.Dict", TMap(TInt("int64", NoB, NoB))),
     Def("Coll", TMap(TStr(1, -1))), Def("List", TArr(TInt("int64", Ge(0), NoB))),
     Def("x.Coll", TMap(TStr(-1, -1))), Def("x.List", TArr(TInt("int64", NoB, NoB))),
-    Def("x.Child", TStruct(<<F("cid", TInt("int64", Ge(1), NoB)), FOpt("tags", TRef("x.Coll"))>>))>>, TRUE),
+    Def("x.Child", TStruct(<<F("cid", TInt("int64", Ge(1), NoB)), FOpt("tags", TRef("x.Coll")), FOpt("list", TArr(TStr(-1, -1))), FOpt("dict", TMap(TInt("int64", NoB, NoB)))>>))>>, TRUE),
   \* control: the constrained own collection first
   Fixed("two-packages-reversed", <<
     Def("Root", TStruct(<<
